@@ -290,6 +290,7 @@ func (m c09) run(c *Ctx, s *c09scn, r *RNG) {
 		nums = append(nums, 1<<40)
 	}
 	var firstSeq map[uint][]string
+	orderViolated := false
 	shuffles := 3
 	nontrivial := false
 	for sh := 0; sh <= shuffles; sh++ {
@@ -401,12 +402,17 @@ func (m c09) run(c *Ctx, s *c09scn, r *RNG) {
 					if s.Holder == "WrapperCollection" || s.Holder == "Resources-wrapped" {
 						holder = "wrapped"
 					}
-					c.Violate("order/"+kind+"/"+holder, "page %d position %d holds %q with keys %v, the sorted matching set has keys %v there (ids %v, want %v); %s", num, i, id, kg, kw, ids, specIDs(want), desc())
-					return
+					// an ordering violation does not end the scenario: membership, partition, non-nil result and
+					// input identity are still judged (the order clause is judged once per scenario)
+					if !orderViolated {
+						c.Violate("order/"+kind+"/"+holder, "page %d position %d holds %q with keys %v, the sorted matching set has keys %v there (ids %v, want %v); %s", num, i, id, kg, kw, ids, specIDs(want), desc())
+					}
+					orderViolated = true
+					continue
 				}
-				if hasID && id != want[i].ID {
+				if hasID && id != want[i].ID && !orderViolated {
 					c.Violate("order/id-sequence", "page %d: ids %v, want %v; %s", num, ids, specIDs(want), desc())
-					return
+					orderViolated = true
 				}
 			}
 		}
@@ -430,7 +436,7 @@ func (m c09) run(c *Ctx, s *c09scn, r *RNG) {
 			c.Violate("panic@"+pi.Frame+"/read-input", "%s", pi)
 			return
 		}
-		if hasID {
+		if hasID && !orderViolated {
 			if firstSeq == nil {
 				firstSeq = seqs
 			} else {
